@@ -260,7 +260,7 @@ def main():
     res = run_cases(cases, "checks.c17:worker", chk.scratch, nproc=chk.args.nproc, timeout=1800)
     for c, r in zip(cases, res):
         if "results" not in r:
-            chk.note_inconclusive(str(r)[:400])
+            chk.note_inconclusive(str(r)[:400], fatal=True)
             chk.evaluations += len(c["ids"]) + len(c["qids"])
             continue
         chk.merge_counters(r["counts"])
